@@ -357,6 +357,15 @@ func TestC18_Mgrx(t *testing.T) {
 				base = simpleCid(77)
 			}
 			viaTransport := c.pull() && rapid.Bool().Draw(t, "dupViaTransport")
+			// what the validator says about the duplicate makes no difference to the existing channel
+			switch rapid.SampledFrom([]string{"accepts", "accepts", "rejects", "errors"}).Draw(t, "validatorOnDuplicate") {
+			case "rejects":
+				r.vals["T/a"].Push(dbl.Outcome{Result: datatransfer.ValidationResult{Accepted: false}})
+				log = append(log, "the validator rejects the duplicate")
+			case "errors":
+				r.vals["T/a"].Push(dbl.Outcome{Result: datatransfer.ValidationResult{Accepted: false}, Err: errors.New("validator failed")})
+				log = append(log, "the validator fails on the duplicate")
+			}
 			req := newRequestMsg(c.chid.ID, false, c.pull(), v, base, c.sel)
 			sent0, tr0 := r.net.SentLen(), r.tr.Len()
 			var returned datatransfer.Response
